@@ -190,7 +190,11 @@ def run_contract(contract, finfo, spec_funcs, generators, n, seed, want_clause=N
                     else:
                         kwargs[p] = gen.value(ts)
             clock = kwargs.pop('__clock__', None) or rng.choice(TIMES[1:])
-            res = concrete.check_call(contract, func, kwargs, spec_funcs, clock=clock)
+            extra_env = kwargs.pop('__env__', None)
+            gfuncs = kwargs.pop('__ghost_funcs__', None)
+            gout = kwargs.pop('__ghost_out__', None)
+            res = concrete.check_call(contract, func, kwargs, spec_funcs, clock=clock, extra_env=extra_env,
+                                      ghost_funcs=gfuncs, ghost_out_fn=gout)
         except concrete.SpecError as e:
             errors.append('SpecError: %s' % e)
             break
